@@ -279,7 +279,7 @@ PROPS["C07"] = {
                  "C07.C07_kes_bound_to_opcert", "C07.C07_duplicate_rejected", "Registration.register_iff",
                  "C07.C07_aggregator_store", "RegLeader.run_inv", "RegLeader.verifier_ok_certified",
                  "C07.C07_announced_evolutions_counterexample_before_repair", "C07.C07_foreign_duplicate_counterexample_before_repair",
-                 "C07.C07_aggregator_repaired"],
+                 "C07.C07_aggregator_repaired", "C07.C07_evolution_cap"],
     "level_text": "Acceptance of a registration is proved EQUIVALENT, in Lean, to the conjunction the property lists (an iff, so a missing or "
                   "mis-bound conjunct cannot hide), with the recorded stake read from the distribution only and the KES window exactly e-1..e+1 "
                   "capped at 64; and, for the aggregator (verifier + leader + stores as a state machine), an invariant proved for EVERY history of "
